@@ -21,9 +21,11 @@ import (
 	"fmt"
 	"math/big"
 	"sort"
+	"sync"
 	"testing"
 
 	"filippo.io/edwards25519"
+	blst "github.com/supranational/blst/bindings/go"
 	"pgregory.net/rapid"
 
 	"github.com/ava-labs/hypersdk/auth"
@@ -81,7 +83,7 @@ type c17Case struct {
 	SRand   []byte
 }
 
-var c17AlgKinds = [3]int{9, 10, 12} // number of algebraic op kinds per scheme
+var c17AlgKinds = [3]int{9, 10, 14} // number of algebraic op kinds per scheme
 
 func c17MsgGen() *rapid.Generator[[]byte] {
 	return rapid.Custom(func(rt *rapid.T) []byte {
@@ -152,6 +154,9 @@ func c17Gen(rt *rapid.T) c17Case {
 		switch k := rapid.IntRange(0, 9).Draw(rt, "opClass"); {
 		case k < 6:
 			op.Kind = rapid.IntRange(0, c17AlgKinds[c.Scheme]-1).Draw(rt, "algKind")
+			if c.Scheme == schemeBLS { // rapid favours small values: keep the constructed torsion kinds (12, 13) well represented
+				op.Kind = []int{0, 12, 1, 13, 2, 3, 4, 5, 6, 7, 8, 9, 10, 11}[op.Kind]
+			}
 		case k < 9:
 			op.Kind = c17OpByteMut
 		default:
@@ -267,6 +272,119 @@ func c17BLSAddP(b []byte, off int, flagged bool) ([]byte, bool) {
 	co[0] |= flags
 	copy(out[off:], co)
 	return out, true
+}
+
+// ---- BLS12-381 cofactor torsion: points on the curve but outside the prime-order subgroup.
+// T = [r]P for an arbitrary curve point P (r = group order) lies in the cofactor subgroup; adding it
+// to an honest key / signature gives a different encoding of a point OUTSIDE G1 / G2 for which the
+// pairing equation still holds (the final exponentiation kills the torsion component), so only
+// the subgroup check at decode time rejects it.
+
+var (
+	c17TorsionOnce   sync.Once
+	c17TorsionG1     []*blst.P1
+	c17TorsionG2     []*blst.P2
+	blsG1Cofactor, _ = new(big.Int).SetString("396c8c005555e1568c00aaab0000aaab", 16)
+)
+
+func leBytes(x *big.Int, n int) []byte {
+	b := make([]byte, n)
+	x.FillBytes(b)
+	for i, j := 0, n-1; i < j; i, j = i+1, j-1 {
+		b[i], b[j] = b[j], b[i]
+	}
+	return b
+}
+
+func c17IsInfG1(p *blst.P1) bool { return p.ToAffine().Compress()[0]&0x40 != 0 }
+func c17IsInfG2(p *blst.P2) bool { return p.ToAffine().Compress()[0]&0x40 != 0 }
+
+// c17Torsion builds (once, deterministically) four non-trivial torsion points of E(F_p) and of E'(F_p2).
+func c17TorsionPoints() ([]*blst.P1, []*blst.P2) {
+	c17TorsionOnce.Do(func() {
+		rLE := leBytes(blsR, 32)
+		for ctr := 0; len(c17TorsionG1) < 4 && ctr < 10000; ctr++ {
+			h1 := sha256.Sum256([]byte(fmt.Sprintf("verif-bls-g1-candidate-%d-a", ctr)))
+			h2 := sha256.Sum256([]byte(fmt.Sprintf("verif-bls-g1-candidate-%d-b", ctr)))
+			cand := append(h1[:], h2[:16]...)
+			cand[0] = 0x80 | (cand[0] & 0x1f)
+			aff := new(blst.P1Affine).Uncompress(cand) // on curve, subgroup not checked
+			if aff == nil {
+				continue
+			}
+			var p blst.P1
+			p.FromAffine(aff)
+			t := p.Mult(rLE)
+			if c17IsInfG1(t) {
+				continue
+			}
+			// sanity of the arithmetic: T is on the curve, outside G1, and killed by the cofactor
+			ta := t.ToAffine()
+			if new(blst.P1Affine).Uncompress(ta.Compress()) == nil || ta.InG1() || !c17IsInfG1(t.Mult(leBytes(blsG1Cofactor, 16))) {
+				panic("blst arithmetic on non-subgroup G1 points is not usable")
+			}
+			c17TorsionG1 = append(c17TorsionG1, t)
+		}
+		for ctr := 0; len(c17TorsionG2) < 4 && ctr < 10000; ctr++ {
+			var cand []byte
+			for i := 0; i < 3; i++ {
+				h := sha256.Sum256([]byte(fmt.Sprintf("verif-bls-g2-candidate-%d-%d", ctr, i)))
+				cand = append(cand, h[:]...)
+			}
+			cand[0] = 0x80 | (cand[0] & 0x1f)
+			cand[48] &= 0x1f
+			aff := new(blst.P2Affine).Uncompress(cand)
+			if aff == nil {
+				continue
+			}
+			var p blst.P2
+			p.FromAffine(aff)
+			t := p.Mult(rLE)
+			if c17IsInfG2(t) {
+				continue
+			}
+			ta := t.ToAffine()
+			if new(blst.P2Affine).Uncompress(ta.Compress()) == nil || ta.InG2() {
+				panic("blst arithmetic on non-subgroup G2 points is not usable")
+			}
+			c17TorsionG2 = append(c17TorsionG2, t)
+		}
+		if len(c17TorsionG1) == 0 || len(c17TorsionG2) == 0 {
+			panic("no BLS torsion points found")
+		}
+	})
+	return c17TorsionG1, c17TorsionG2
+}
+
+// c17BLSAddTorsionPK returns compress(pk + [k]T) for torsion point number idx.
+func c17BLSAddTorsionPK(pk []byte, idx, k int) ([]byte, bool) {
+	ts, _ := c17TorsionPoints()
+	aff := new(blst.P1Affine).Uncompress(pk)
+	if aff == nil {
+		return nil, false
+	}
+	var p blst.P1
+	p.FromAffine(aff)
+	kt := ts[idx%len(ts)].Mult([]byte{byte(k)})
+	if c17IsInfG1(kt) {
+		return nil, false
+	}
+	return p.Add(kt).ToAffine().Compress(), true
+}
+
+func c17BLSAddTorsionSig(sig []byte, idx, k int) ([]byte, bool) {
+	_, ts := c17TorsionPoints()
+	aff := new(blst.P2Affine).Uncompress(sig)
+	if aff == nil {
+		return nil, false
+	}
+	var p blst.P2
+	p.FromAffine(aff)
+	kt := ts[idx%len(ts)].Mult([]byte{byte(k)})
+	if c17IsInfG2(kt) {
+		return nil, false
+	}
+	return p.Add(kt).ToAffine().Compress(), true
 }
 
 // c17SecpSecondKey returns the other public key under which the ECDSA signature (r,s) verifies
@@ -573,13 +691,27 @@ func c17Apply(scheme int, op c17Op, pk, sig, msg []byte) (c17Derived, bool) {
 			}
 			d.sig = v
 			d.label = "bls:sig-x.c0+p"
-		default:
+		case 11:
 			v, ok := c17BLSAddP(d.sig, 0, true)
 			if !ok {
 				return d, false
 			}
 			d.sig = v
 			d.label = "bls:sig-x.c1+p"
+		case 12: // honest key plus a non-trivial cofactor-torsion point: on the curve, outside G1
+			v, ok := c17BLSAddTorsionPK(d.pk, op.A, 1+op.B%5)
+			if !ok {
+				return d, false
+			}
+			d.pk = v
+			d.label = "bls:pk+torsion"
+		default: // honest signature plus a torsion point of E'(F_p2): outside G2
+			v, ok := c17BLSAddTorsionSig(d.sig, op.A, 1+op.B%5)
+			if !ok {
+				return d, false
+			}
+			d.sig = v
+			d.label = "bls:sig+torsion"
 		}
 	}
 	return d, true
@@ -785,6 +917,13 @@ func c17Canonical(scheme int, pk, sig []byte) error {
 		if new(big.Int).SetBytes(pk[1:]).Cmp(secpP) >= 0 {
 			return errors.New("secp256r1 key with x >= p verifies")
 		}
+	case schemeBLS:
+		if a := new(blst.P1Affine).Uncompress(pk); a == nil || !a.InG1() || a.Compress()[0]&0x40 != 0 {
+			return errors.New("BLS public key outside the prime-order subgroup G1 (or infinity) verifies")
+		}
+		if a := new(blst.P2Affine).Uncompress(sig); a == nil || !a.InG2() {
+			return errors.New("BLS signature outside the prime-order subgroup G2 verifies")
+		}
 	}
 	return nil
 }
@@ -954,7 +1093,7 @@ func c17Run(c c17Case, st *vstat.Stats) error {
 	return nil
 }
 
-const c17Rule = "per case one scheme (ed25519/secp256r1/BLS), a key derived from a drawn 32-byte seed through the scheme's own derivation, a message of 0-2000 bytes signed by the real auth factory, then 3-8 derived (pk',sig',msg'): algebraic re-encodings (ed25519 s+k*l, sign bits of R/A, R/A plus an 8-torsion point, (-R,l-s), l-s, s=0/identity/small-order R, y+p; secp256r1 n-s, r+n, s+n, 0/n scalars, n-r, prefix 02<->03 and invalid prefixes, x+p, (s,r); BLS sign/compression/infinity flags of key and signature, infinity encodings, x+p), 1-3 byte mutations of pk||sig, message mutations; each must be rejected and whatever decodes must re-encode identically with actor=sponsor=typeID||sha256(pk); plus Unmarshal(Bytes()) round trip and address = New*Address = factory.Address; 15% of the cases feed arbitrary bytes to the scheme's Unmarshal; 10% construct a genuine secp256r1 signature for a chosen s (nonce k, d=(s*k-z)/r; crypto/ecdsa confirms it) at 1, N/2-1..N/2+3, N/2+2^64/2^200/2^222, 2^255-3..2^255+1, N-3..N-1 (+-2) or uniform in (N/2,2^255), and demand Verify accepts (r,s) iff s<=N/2 and exactly one of (r,s),(r,N-s); non-trivial = at least one applicable algebraic re-encoding, or a constructed boundary signature; distinct by the whole case"
+const c17Rule = "per case one scheme (ed25519/secp256r1/BLS), a key derived from a drawn 32-byte seed through the scheme's own derivation, a message of 0-2000 bytes signed by the real auth factory, then 3-8 derived (pk',sig',msg'): algebraic re-encodings (ed25519 s+k*l, sign bits of R/A, R/A plus an 8-torsion point, (-R,l-s), l-s, s=0/identity/small-order R, y+p; secp256r1 n-s, r+n, s+n, 0/n scalars, n-r, prefix 02<->03 and invalid prefixes, x+p, (s,r); BLS sign/compression/infinity flags of key and signature, infinity encodings, x+p, honest key + k*T and honest signature + k*T' for constructed cofactor-torsion points T of E(F_p), T' of E'(F_p2) (on the curve, outside G1/G2)), 1-3 byte mutations of pk||sig, message mutations; each must be rejected and whatever decodes must re-encode identically with actor=sponsor=typeID||sha256(pk); plus Unmarshal(Bytes()) round trip and address = New*Address = factory.Address; 15% of the cases feed arbitrary bytes to the scheme's Unmarshal; 10% construct a genuine secp256r1 signature for a chosen s (nonce k, d=(s*k-z)/r; crypto/ecdsa confirms it) at 1, N/2-1..N/2+3, N/2+2^64/2^200/2^222, 2^255-3..2^255+1, N-3..N-1 (+-2) or uniform in (N/2,2^255), and demand Verify accepts (r,s) iff s<=N/2 and exactly one of (r,s),(r,N-s); non-trivial = at least one applicable algebraic re-encoding, or a constructed boundary signature; distinct by the whole case"
 
 func TestC17(t *testing.T) {
 	st := vstat.New(t, "C17", c17Rule)
